@@ -27,7 +27,10 @@ FOREIGN = [("  0 = B 120000", {"sync"}), ("  0 = TS 4", {"sync"}), ("  0 = A 5",
            ("  0 = E \"x\"", {"events", "instrument"}), ("  Resolution = 192", set()), ("  Name = \"x\"", set()), ("garbage", set()),
            ("", set()), ("  ", set()), ("  0 = S 64 10", set()), ("  0 = N 8 0", set()), ("  0 = N 9 48", set()), ("  0 = E two words", set()),
            ("[Header]", set()), ("  0 = N 10 0", set()), ("  0 = S 0 5", set()), ("  0 = TS", set()), ("  0 = B x", set()),
-           ("  }", set()), ("} ", set()), ("\t{", set()), (" { ", set()), ("{}", set())]
+           ("  }", set()), ("} ", set()), ("\t{", set()), (" { ", set()), ("{}", set()),
+           # characters that mean something to string formatting / logging / regex engines
+           ("  100% = B 120000", set()), ("  0 = X %s", set()), ("%d %s %(line)s", set()), ("  0 = N %d 0", set()), ("{0} {} {line}", set()),
+           ("  0 = E \"lyric 100% sure\"", {"events"}), ("  0 = B 50%", set()), ("\\d+ = N \\d \\d", set()), ("  0 = N 0 0 % note", set())]
 
 
 def body_count(R):
@@ -51,25 +54,27 @@ def slice(ctx: fw.Ctx) -> fw.Outcome:
         # insert unparsable lines (w.r.t. the section they go to) at random positions and multiplicities
         secs = [(t, b[:]) for t, b in base.sections]
         ins = 0
+        inserted = []
         for t, b in secs:
             if t == "Song":
                 continue
             sec = "sync" if t == "SyncTrack" else "events" if t == "Events" else "instrument"
-            for _ in range(rng.choice([0, 1, 1, 2, 5])):
+            for _ in range(rng.choice([0, 1, 1, 2, 5, 5, 20, 45])):
                 g, parsable_in = rng.choice(FOREIGN)
                 if sec in parsable_in:
                     continue  # parsable here by the documented format: not garbage for this section
                 b.insert(rng.randint(0, len(b)), g)
                 ins += 1
+                inserted.append(g)
         lines = []
         for t, b in secs:
             lines += [f"[{t}]", "{"] + b + ["}"]
-        items.append((src, base, "\n".join(lines) + "\n", ins))
+        items.append((src, base, "\n".join(lines) + "\n", ins, inserted))
     texts = []
-    for src, base, gtext, ins in items:
+    for src, base, gtext, ins, inserted in items:
         texts += [(base.text, None), (gtext, None)]
     a, b = common.run_charts(texts)
-    for k, (src, base, gtext, ins) in enumerate(items):
+    for k, (src, base, gtext, ins, inserted) in enumerate(items):
         x0, x1 = a[2 * k], a[2 * k + 1]
         y0, y1 = b[2 * k], b[2 * k + 1]
         rp = {"op": "garbage", "base": base.text, "with_garbage": gtext, "inserted": ins}
@@ -89,6 +94,15 @@ def slice(ctx: fw.Ctx) -> fw.Outcome:
         elif d1["unparsable"] != d0["unparsable"] + ins or d0["unparsable"] != 0:
             out.violation("warn-" + fw.h(rp), f"{ins} unparsable lines inserted, {d1['unparsable'] - d0['unparsable']} warnings more ({d0['unparsable']} before)",
                           rp, observed=d1["unparsable"], promised=d0["unparsable"] + ins)
+        elif inserted:
+            # each skipped line is *reported*: a warning naming that very line, as often as it was inserted
+            msgs = [m for n_, m in (impl.parse(gtext)[2] or []) if n_ == "chartparse.track"]
+            for g in set(inserted):
+                if sum(1 for m in msgs if g in m) < inserted.count(g):
+                    out.violation("named-" + fw.h(rp), f"unparsable line {g!r} inserted {inserted.count(g)}× is named by "
+                                  f"{sum(1 for m in msgs if g in m)} warnings", {**rp, "line": g, "times": inserted.count(g)},
+                                  observed=[m[:80] for m in msgs[:3]], promised="one warning naming the line per insertion")
+                    break
     disjoint(ctx, out)
     return out
 
@@ -123,7 +137,13 @@ def replay(ctx, data):
         if x1.startswith("E ") or x1.split("|W ")[0] != x0.split("|W ")[0]:
             return True, str(fw.first_diff(x0, x1))
         d0, d1 = gen.parse_dump(x0), gen.parse_dump(x1)
-        return d1["unparsable"] != d0["unparsable"] + data["inserted"], f"warnings {d0['unparsable']} -> {d1['unparsable']}"
+        if d1["unparsable"] != d0["unparsable"] + data["inserted"]:
+            return True, f"warnings {d0['unparsable']} -> {d1['unparsable']}"
+        if "line" in data:
+            msgs = [m for n_, m in (impl.parse(data["with_garbage"])[2] or []) if n_ == "chartparse.track"]
+            k = sum(1 for m in msgs if data["line"] in m)
+            return k < data["times"], f"{k} warnings name the line"
+        return False, f"warnings {d0['unparsable']} -> {d1['unparsable']}"
     if data["op"] == "disjoint":
         acc = [k for k in data["kinds"] if lc.line_impl(k, data["line"]) != "none"]
         return len(acc) > 1, str(acc)
